@@ -206,6 +206,20 @@ def gen_cases(tier, seed):
                 item['sense'] = n % 2     # 'reversed' option of the shape itself
             fmts = [f for f in FMT_BY_PDIM[pd] if not (f[0] in ('smesh', 'vmesh') and d['dim'] != 3)]
             cases.append(dict(kind='shape', items=[item], container=False, fmts=fmts))
+    # ---- beyond the small sizes: degree up to 6, 7..12 control points per direction (every (degree, size) pair with a
+    # two-digit size and 10 <= size), more than 256 control points
+    from .. import util_knots as K
+    big = K.tall_curve_shapes(tier)[::3] + K.tall_surface_shapes(tier) + K.huge_shapes(tier)
+    for p, n in ((2, 10), (3, 12), (3, 20), (5, 11)):
+        for rat in (False, True):
+            big.append(A.shape_desc([A.uniform_kv(p, n), A.clamped_kv(1, [(0.5, 1)])], [p, 1], rat, 3, 'coded', 'coded', tall=True))
+            big.append(A.shape_desc([A.clamped_kv(2, []), A.uniform_kv(p, n)], [2, p], rat, 3, 'coded', 'coded', tall=True))
+        big.append(A.shape_desc([A.clamped_kv(1, []), A.uniform_kv(p, n), A.clamped_kv(2, [])], [1, p, 2], p % 2 == 0, 3, 'coded', 'coded', tall=True))
+        big.append(A.shape_desc([A.uniform_kv(p, n), A.clamped_kv(1, [(0.5, 1)]), A.clamped_kv(1, [])], [p, 1, 1], p % 2 == 1, 3, 'coded', 'coded', tall=True))
+        big.append(A.shape_desc([A.clamped_kv(1, []), A.clamped_kv(1, [(0.5, 1)]), A.uniform_kv(p, n)], [1, 1, p], False, 3, 'coded', 'coded', tall=True))
+    for d in big:
+        pd = d['pdim']
+        cases.append(dict(kind='shape', items=[dict(shape=d, delta=DELTAS[pd][0])], container=False, fmts=FMT_BY_PDIM[pd]))
     # ---- containers of 1..4 shapes (rotation 0 is drawn from the quick alphabet in both tiers)
     for pd in (1, 2, 3):
         for rot in range(1 if q else 3):
@@ -748,7 +762,13 @@ def run_case(case, ctx):
             target = _export_target(case, objs)
             rc = dict(case, fmts=[fmt])
             sub = tempfile.mkdtemp(prefix='f-', dir=tmp)
-            FORMATS[fmt[0]](case, ctx, target, origs, fmt, sub, rc)
+            try:
+                FORMATS[fmt[0]](case, ctx, target, origs, fmt, sub, rc)
+                ctx.check('C14.%s.roundtrip.accepted' % fmt[0], True, rc, _feats(case, origs[0], fmt))
+            except Exception as e:
+                # the library rejected (or crashed on) a valid object or a file it wrote itself
+                ctx.check('C14.%s.roundtrip.accepted' % fmt[0], False, rc, _feats(case, origs[0], fmt),
+                          'export and import are carried out', '%s: %s' % (type(e).__name__, str(e)[:200]))
             # the exported objects still are what they were
             for k, (o, orig) in enumerate(zip(objs, origs)):
                 ctx.check('C14.export.leaves_definition', _canon(R.def_from_obj(o)) == orig.canon, rc,
